@@ -783,3 +783,12 @@ Example oc_nested_example :
   let p := five (EDisp KTup [a]) ++ five (EDisp KList [a; EName 1]) in
   oc p = Some (SAssign 6 (EDisp KTup [a]) :: SAssign 7 a :: five (EName 6) ++ five (EDisp KList [EName 7; EName 1])).
 Proof. reflexivity. Qed.
+
+(* the with block ends with the statement list in which it is introduced; the enclosing list may still use the handle
+   (finding F02abs-3, the same family as F01-76): mcm1_sound is a statement about the rewritten list, not a congruence *)
+Theorem mcm_nested_refuted : exists p o,
+  mcm p = [SIf (ECall 0 []) [SWith 1 0 [SRead 2 1]] []; SRead 2 1] /\
+  fst (exec_block o st0 p) = Normal /\ fst (exec_block o st0 (mcm p)) = Exc XClosed.
+Proof.
+  exists [SIf (ECall 0 []) [SOpen 1 0; SRead 2 1] []; SRead 2 1], (fun _ => Some 1). repeat split; reflexivity.
+Qed.
